@@ -229,6 +229,138 @@ theorem newPeerLoop_next_lt {fuel : Nat} {ps : Peers} {n pid nx : Nat}
     · exact ih h
     · simp at h; rw [← h.2]; exact Nat.mod_lt _ (by rw [idMod_eq]; omega)
 
+theorem newPeer_next_lt {net net1 : Net} {addr pid : Nat} {tok : Bool}
+    (h : newPeer net addr tok = .ok (net1, pid)) : net1.nextPeerId < idMod := by
+  unfold newPeer at h
+  split at h
+  · simp at h
+  · rename_i pid' nx hl
+    simp only [Except.ok.injEq, Prod.mk.injEq] at h
+    rw [← h.1]
+    exact newPeerLoop_next_lt hl
+
+theorem step_next_lt {env : Conn6.Env} {net net' : Net} {op : Op} {r : Ret} {o : Out}
+    (hn : net.nextPeerId < idMod) (h : step env net op = .ok (net', r, o)) : net'.nextPeerId < idMod := by
+  cases op with
+  | feed addr rd =>
+    simp only [step, feed] at h
+    have hu : ∀ pending, feedUnknown net addr pending rd = .ok (net', r, o) → net'.nextPeerId < idMod := by
+      intro pending hu
+      unfold feedUnknown at hu
+      split at hu
+      · simp only [Except.ok.injEq, Prod.mk.injEq] at hu; rw [← hu.1]; exact hn
+      · simp only [Except.ok.injEq, Prod.mk.injEq] at hu; rw [← hu.1]; exact hn
+      · split at hu
+        · simp only [Except.ok.injEq, Prod.mk.injEq] at hu; rw [← hu.1]; exact hn
+        · split at hu
+          · split at hu
+            · simp at hu
+            · rename_i hnp
+              simp only [Except.ok.injEq, Prod.mk.injEq] at hu; rw [← hu.1]; exact newPeer_next_lt hnp
+          · simp only [Except.ok.injEq, Prod.mk.injEq] at hu; rw [← hu.1]; exact hn
+      · simp only [Except.ok.injEq, Prod.mk.injEq] at hu; rw [← hu.1]; exact hn
+    split at h
+    · split at h
+      · simp at h
+      · split at h
+        · exact hu _ h
+        · unfold feedPeer at h
+          split at h
+          · simp at h
+          · split at h
+            · simp at h
+            · split at h
+              · simp at h
+              · simp only [Except.ok.injEq, Prod.mk.injEq] at h; rw [← h.1]; exact hn
+    · exact hu _ h
+  | connect addr =>
+    simp only [step, connect] at h
+    split at h
+    · simp at h
+    · rename_i hnp
+      split at h
+      · simp at h
+      · simp only [Except.ok.injEq, Prod.mk.injEq] at h; rw [← h.1]; exact (newPeer_next_lt hnp : _ < idMod)
+  | accept pid =>
+    simp only [step, accept, modifyPeer] at h
+    split at h
+    · simp at h
+    · split at h
+      · simp at h
+      · simp only [Except.ok.injEq, Prod.mk.injEq] at h; rw [← h.1]; exact hn
+  | send pid d v =>
+    simp only [step, send, modifyPeer] at h
+    split at h
+    · simp at h
+    · split at h
+      · simp at h
+      · simp only [Except.ok.injEq, Prod.mk.injEq] at h; rw [← h.1]; exact hn
+  | flush pid =>
+    simp only [step, flush, modifyPeer] at h
+    split at h
+    · simp at h
+    · split at h
+      · simp at h
+      · simp only [Except.ok.injEq, Prod.mk.injEq] at h; rw [← h.1]; exact hn
+  | reject pid reason =>
+    simp only [step, reject, removePeer] at h
+    split at h
+    · simp at h
+    · split at h
+      · simp at h
+      · split at h
+        · simp at h
+        · simp only [Except.ok.injEq, Prod.mk.injEq] at h; rw [← h.1]; exact hn
+  | disconnect pid reason =>
+    simp only [step, disconnect, removePeer] at h
+    split at h
+    · simp at h
+    · split at h
+      · simp at h
+      · split at h
+        · simp at h
+        · simp only [Except.ok.injEq, Prod.mk.injEq] at h; rw [← h.1]; exact hn
+  | ignore pid =>
+    simp only [step, ignore, removePeer] at h
+    split at h
+    · simp at h
+    · split at h
+      · simp at h
+      · simp only [Except.ok.injEq, Prod.mk.injEq] at h; rw [← h.1]; exact hn
+  | sendConnless addr d =>
+    simp only [step, sendConnless] at h
+    split at h
+    · simp only [Except.ok.injEq, Prod.mk.injEq] at h; rw [← h.1]; exact hn
+    · split at h
+      · simp at h
+      · simp only [Except.ok.injEq, Prod.mk.injEq] at h; rw [← h.1]; exact hn
+  | tick =>
+    simp only [step, tick] at h
+    split at h
+    · simp at h
+    · simp only [Except.ok.injEq, Prod.mk.injEq] at h; rw [← h.1]; exact hn
+
+theorem run_next_lt (h : History) : ∀ (net net' : Net) (outs : List (Ret × Out)),
+    net.nextPeerId < idMod → run net h = .ok (net', outs) → net'.nextPeerId < idMod := by
+  induction h with
+  | nil => intro net net' outs hn hr; simp [run] at hr; rw [← hr.1]; exact hn
+  | cons x xs ih =>
+    obtain ⟨env, op⟩ := x
+    intro net net' outs hn hr
+    simp only [run] at hr
+    cases hst : step env net op with
+    | error f => simp [hst] at hr
+    | ok v =>
+      obtain ⟨net1, r, o⟩ := v
+      simp only [hst] at hr
+      cases hrest : run net1 xs with
+      | error f => simp [hrest] at hr
+      | ok w =>
+        obtain ⟨net2, outs2⟩ := w
+        simp only [hrest, Except.ok.injEq, Prod.mk.injEq] at hr
+        rw [← hr.1]
+        exact ih net1 net2 outs2 (step_next_lt hn hst) hrest
+
 /-! ### a concrete history (non-vacuity of the hypotheses; the D22 history) -/
 
 /-- the client's connect request, read the same under every token hint -/
